@@ -9,7 +9,10 @@ mkdir -p "$W.ev" && cp "$HERE/known_findings.json" "$W.ev/"
 for S in "$@"; do
   P=$(python3 -c "import json;print(json.load(open('$S/meta.json'))['property'])")
   if ! git -C "$W" apply "$S/patch.diff" 2>/dev/null; then echo "$S patch-does-not-apply"; continue; fi
-  fired=$("$HERE/bin/icecheck" -property "$P" -tier quick -repo "$W" -verif "$W.ev" 2>&1 | sed -n 's/^ *\(VIOLATED\|UNDECIDED\) \(R[0-9.]*\).*/\2/p' | sort -u | tr '\n' ' ')
+  out=$("$HERE/bin/icecheck" -property "$P" -tier quick -repo "$W" -verif "$W.ev" 2>&1)
+  fired=$(echo "$out" | sed -n 's/^ *\(VIOLATED\|UNDECIDED\) \(R[0-9.]*\).*/\2/p' | sort -u | tr '\n' ' ')
+  weak=$(echo "$out" | sed -n 's/^ *UNDECIDED  *\(anchor:[^ ]*\).*/\1/p' | sort -u | tr '\n' ' ')
+  [ -z "$fired" ] && [ -n "$weak" ] && fired="(only: $weak)"
   git -C "$W" checkout -q -- . && git -C "$W" clean -fdq
   if [ -n "$fired" ]; then echo "$S caught by $fired"; else echo "$S MISSED"; fi
 done
